@@ -51,14 +51,17 @@ def shape(v):
 
 
 def _dtype_tag(dt, fill=None):
-    if dt is not None:
+    if dt is not None and dt.kind != "none":
         t = dt.term
         s = repr(t)
         if "bool" in s:
             return "bool"
         if "int" in s:
             return "int"
-        return None
+        if "float" in s:
+            return None
+        # a data-dependent dtype (e.g. X.dtype): kept symbolically, the value may be truncated
+        return ("dtype", t)
     if fill is not None and fill.has_const:
         if isinstance(fill.const, bool):
             return "bool"
@@ -77,7 +80,9 @@ def np_zeros(interp, name, args, kw, st, node):
         base = "zeros"
     term = T(base, *shape_terms(dims, shape_arg_terms(b["shape"]))) if dims is not None else T(base, b["shape"].term)
     if tag:
-        term = T("astype", term, tag)
+        term = T("astype", term, tag) if isinstance(tag, str) else T("astype_dyn", term, tag[1])
+        if not isinstance(tag, str):
+            tag = None
     return fresh_arr(term, dims, frozenset(), tag)
 
 
@@ -87,6 +92,8 @@ def np_full(interp, name, args, kw, st, node):
     dims = dims_from_shape_arg(b["shape"])
     fill = b["fill_value"]
     tag = _dtype_tag(b.get("dtype"), fill)
+    if not isinstance(tag, str):
+        tag = None
     term = T("full", fill.term, *shape_terms(dims, shape_arg_terms(b["shape"]))) if dims is not None else T("full", fill.term, b["shape"].term)
     return fresh_arr(term, dims, _L(fill), tag)
 
@@ -122,6 +129,8 @@ def np_geomspace(interp, name, args, kw, st, node):
 def np_array(interp, name, args, kw, st, node):
     x = arrv(args[0])
     tag = _dtype_tag(kw.get("dtype") if "dtype" in kw else (args[1] if len(args) > 1 and name == "numpy.array" else None))
+    if not isinstance(tag, str):
+        tag = None
     sh = shape(x)
     interp.event("copy", node, st, source=x)
     if x.kind in ("arr", "int", "float", "bool"):
@@ -1064,7 +1073,13 @@ def call_external(interp, qual, args, kw, st, node):
     f = NP.get(qual)
     if f is not None:
         try:
-            return f(interp, qual, args, kw, st, node)
+            res = f(interp, qual, args, kw, st, node)
+            consumed = CONSUMED_KW.get(qual)
+            if consumed is not None:
+                extra = {k: v for k, v in kw.items() if k not in consumed and not (v.kind == "none")}
+                if extra:
+                    res = _with_extra_kw(interp, res, extra)
+            return res
         except (IndexError, KeyError, AttributeError, TypeError) as e:
             interp.event("api-error", node, st, fn=qual, err=repr(e))
             return V("unk", callterm(qual, args, kw), labels=_L(*args, *kw.values()))
@@ -1080,6 +1095,35 @@ def call_external(interp, qual, args, kw, st, node):
 
 
 EXT_CLASSES = {"scipy.interpolate.interp1d"}
+
+# keyword arguments each transfer function takes into account; any other keyword
+# argument of these calls changes the value and is therefore kept in the term
+CONSUMED_KW = {
+    "numpy.linalg.eigh": set(), "scipy.linalg.eigh": set(), "numpy.linalg.eigvals": set(), "numpy.linalg.eigvalsh": set(),
+    "numpy.linalg.svd": {"full_matrices"}, "scipy.linalg.svd": {"full_matrices"},
+    "numpy.linalg.pinv": {"rcond", "rtol"}, "scipy.linalg.pinv": {"rcond", "rtol"}, "numpy.linalg.inv": set(), "scipy.linalg.inv": set(),
+    "numpy.linalg.lstsq": {"rcond"}, "scipy.linalg.lstsq": {"rcond"}, "scipy.sparse.linalg.eigsh": {"k", "v0"},
+    "numpy.linalg.matrix_rank": set(), "numpy.linalg.slogdet": set(), "scipy.linalg.orthogonal_procrustes": set(), "scipy.linalg.sqrtm": set(),
+    "sklearn.utils.extmath.randomized_svd": {"n_components", "random_state"}, "sklearn.utils.extmath.svd_flip": set(),
+    "numpy.argsort": {"axis"}, "numpy.sort": {"axis"}, "numpy.flip": {"axis"}, "numpy.cumsum": set(), "numpy.trace": set(), "numpy.diag": set(), "numpy.diagflat": set(), "numpy.diagonal": set(),
+    "numpy.unique": set(), "numpy.setdiff1d": set(), "numpy.where": set(), "numpy.argwhere": set(), "numpy.take": {"axis"}, "numpy.concatenate": {"axis"}, "numpy.vstack": set(), "numpy.hstack": set(),
+    "numpy.minimum": {"out"}, "numpy.maximum": {"out"}, "numpy.dot": set(), "numpy.outer": set(), "numpy.linalg.multi_dot": set(), "numpy.transpose": {"axes"}, "numpy.reshape": {"newshape", "shape"},
+    "scipy.special.logsumexp": set(), "numpy.searchsorted": {"side"},
+}
+
+
+def _with_extra_kw(interp, res, extra):
+    kt = kwterms(extra)
+    labels = _L(*extra.values())
+
+    def wrap(v):
+        if v.kind in ("tuple", "list") and v.items is not None:
+            return (interp.mk_tuple if v.kind == "tuple" else interp.mk_list)([wrap(x) for x in v.items])
+        if v.kind in ("arr", "int", "float", "unk", "bool"):
+            return v.replace(term=T("with_kw", v.term, kt), labels=v.labels | labels, has_const=False, const_=None)
+        return v
+
+    return wrap(res)
 
 
 def ext_construct(interp, qual, args, kw, st, node):
@@ -1214,6 +1258,8 @@ def _array_method(x, name):
             return V("arr", x.term, shape=shape(x), orig=frozenset([FRESH]), labels=x.labels, loc=fresh_id(), extra=x.extra if isinstance(x.extra, str) else None, dim=x.dim)
         if name == "astype":
             tag = _dtype_tag(args[0] if args else kw.get("dtype"))
+            if not isinstance(tag, str):
+                tag = None
             cp = kw.get("copy")
             if cp is not None and cp.has_const and cp.const is False:
                 return x
